@@ -278,6 +278,8 @@ def make_case(g: G, depth, opts):
                 ops.append(["idx", s, kk, "upd", g.constraint(sub_univ, coverage=r.choice([0.0, 0.5, 1.0, 1.0]))])
             if r.random() < 0.7:
                 ops.append(["assessSelf"])      # the edited trace's score is still the density of its choices
+            if r.random() < 0.6 * opts.get("bwd", 0.5):
+                ops.append(["bwd", r.randint(0, 2**31 - 1), cur_args, False, ["N"] * len(atys)])   # undo the index edit
         elif k == "sreq":
             # a StaticRequest: per top-level address an Update, a Regenerate, an explicit EmptyRequest or
             # nothing (= EmptyRequest); the dict is built in a shuffled order
@@ -735,6 +737,36 @@ def load_corpus(prop_id):
     return out
 
 
+def oob_family(n_progs=2):
+    """Deterministic cases: switch programs (fixed sub-seed) called with out-of-range indices, once with
+    Python-int arguments eagerly and once under jax.jit: the documented clamping must not depend on how
+    the index is passed."""
+    import random as _random
+
+    g = G(_random.Random(20260922), focus={"switch": 1000.0, "tuple_addr": 0.0})
+    progs = []
+    for _ in range(400):
+        if len(progs) == n_progs:
+            break
+        try:
+            prog, atys, _ = g.any_prog(1)
+            infer(prog, atys)
+        except Exception:  # noqa: BLE001
+            continue
+        if prog[0] == "switch" and not has_node(prog[1:], SWITCHY) and not _dup_addrs(prog):
+            progs.append((prog, atys))
+    cases = []
+    for prog, atys in progs:
+        n = len(prog) - 1
+        base = g.args_for(prog, atys)
+        for idx in (-2, -1, n, n + 1):
+            args = [base[0], idx] + base[2:]
+            for mode in ("py", "jit"):
+                ops = [["sim", 1000 + idx, args], ["assessSelf"], ["upd", 2000 + idx, [], args, False, ["N"] * len(atys)]]
+                cases.append({"prog": prog, "atys": atys, "ops": ops, mode: True, "_label": "switch-out-of-range-family"})
+    return cases
+
+
 def standard_run(ctx: Ctx, props, focus=None, opts=None, n_quick=64, n_thorough=1200, depth_quick=2, depth_thorough=3,
                  prop_id=None, zero_len=0.0):
     """The standard E check: corpus and known-finding replays first, then random histories."""
@@ -749,6 +781,8 @@ def standard_run(ctx: Ctx, props, focus=None, opts=None, n_quick=64, n_thorough=
         if e.get("property") == prop_id and "case" in e.get("replay", {}):
             corpus.append(e["replay"]["case"])
     pending = [dict(c, _label="corpus") for c in corpus]
+    if opts.get("oob_family"):
+        pending += oob_family()
     g = G(ctx.rng, focus=focus, zero_len=zero_len)
     n = n_quick if ctx.tier == "quick" else n_thorough
     if os.environ.get("VERIF_N"):        # developer override
